@@ -13,7 +13,9 @@ RULE = ('exhaustive small scope: every cluster-assignment vector up to the tier\
         'is run under every dtype of int32/int64/uint16/uint32 that can hold it and every distinct '
         'observation is judged; for the dtype-aware model (kind spc_dt) every vector up to length 3 (quick) / 5 (thorough) '
         'over the extreme values {-128,-1,0,1,127} of int8 and {0,1,128,255} of uint8, one dtype per case, wrapping '
-        'differences included; then seeded random long vectors. Non-trivial = at least two spikes and, '
+        'differences included; grouped_mean also with the VALUES in every dtype of int8/uint8/int16/uint16/int32/float32/bool (every '
+        'cluster vector up to length 3 (quick) / 4 and a quarter of the next length, values at the ends of the dtype\'s range so that '
+        'per-cluster sums leave it, 1-D and 2 columns); then seeded random long vectors. Non-trivial = at least two spikes and, '
         'for grouping/selection, at least two distinct ids or a non-empty result; distinct = distinct '
         'abstract input.')
 EXHAUSTIVE = {'quick': True, 'thorough': True}
@@ -37,7 +39,8 @@ ASSUMES = ['values fit the dtype; kinds spc / spc_flatten: max - min of the ids 
            'C07_no_wrap); kinds spc_dt / index_of_dt: the dtype-aware model (modular first difference, int32 table size), '
            'any span, property clauses judged where no two ids differ by more than the top of the dtype range',
            '_index_of: lookup distinct and non-negative, queried ids in the lookup or -1',
-           'grouped_mean: non-negative ids, integer data with |sum| < 2^53',
+           'grouped_mean: non-negative ids, integer-valued data with |sum| < 2^53, given as an int64 array or (round 3) as an '
+           'int8 / uint8 / int16 / uint16 / int32 / float32 / bool array holding those integers exactly',
            'get_template_counts: non-negative templates, len(spike_templates) >= len(spike_clusters)']
 TIMEOUT = {'quick': 20, 'thorough': 60}
 
@@ -48,6 +51,11 @@ DT_SIGNED = ['int32', 'int64']
 LIMITS = {'int32': (-2 ** 31, 2 ** 31 - 1), 'int64': (-2 ** 63, 2 ** 63 - 1),
           'uint16': (0, 2 ** 16 - 1), 'uint32': (0, 2 ** 32 - 1),
           'int8': (-2 ** 7, 2 ** 7 - 1), 'uint8': (0, 2 ** 8 - 1)}       # the 8-bit dtypes: kind spc_dt only
+# dtypes of the VALUES given to grouped_mean (key 'vdt' of a gmean case; absent = int64) and the integers they hold exactly.
+# The per-cluster sums are accumulated in float64 whatever the dtype of the values (exact below 2^53), so the model stays the
+# exact sum / count; the ranges are there to make the sums LEAVE the dtype of the values.
+VDT = {'int8': (-2 ** 7, 2 ** 7 - 1), 'uint8': (0, 2 ** 8 - 1), 'int16': (-2 ** 15, 2 ** 15 - 1), 'uint16': (0, 2 ** 16 - 1),
+       'int32': (-2 ** 31, 2 ** 31 - 1), 'float32': (-2 ** 24, 2 ** 24), 'bool': (0, 1), 'int64': (-2 ** 40, 2 ** 40)}
 
 
 def _dts(*lists):
@@ -183,6 +191,18 @@ def _corpus():
     c.append(_case('spc', sc=[], ids=None, dts=['none']))
     c.append(_case('sic', sc=[], cl=[1], dts=['pylist']))
     c.append(_case('sic', sc=[2, 1, 2], cl=[2], dts=['pylist']))
+    # round-3 seed C07-m9: grouped_mean on values of a narrow integer / boolean / float32 dtype whose per-cluster sums leave
+    # that dtype (an accumulator of the dtype of the values wraps, ORs booleans, rounds float32)
+    c.append(_case('gmean', cols=[[30000, 20, 30000, 7, 30, 30000]], sc=[5, 2, 5, 9, 2, 5], twod=False, dts=DT_ALL, vdt='int16'))
+    c.append(_case('gmean', cols=[[200, 1, 100, 7, 3, 0]], sc=[5, 2, 5, 9, 2, 5], twod=False, dts=DT_ALL, vdt='uint8'))
+    c.append(_case('gmean', cols=[[1, 0, 1, 1, 1, 0]], sc=[5, 2, 5, 9, 2, 5], twod=False, dts=DT_ALL, vdt='bool'))
+    c.append(_case('gmean', cols=[[30000, 2, 30000, 6, 8, 1], [1, 3, 5, 7, 9, 1]], sc=[5, 2, 5, 9, 2, 5], twod=True, dts=DT_ALL, vdt='int16'))
+    c.append(_case('gmean', cols=[[127, 127, -128, -128, -1]], sc=[3, 3, 0, 0, 0], twod=False, dts=DT_ALL, vdt='int8'))
+    c.append(_case('gmean', cols=[[65535, 1, 65535]], sc=[2, 2, 7], twod=False, dts=DT_ALL, vdt='uint16'))
+    c.append(_case('gmean', cols=[[2147483647, 2147483647, -2147483648, -2147483648]], sc=[0, 0, 3, 3], twod=False, dts=DT_ALL, vdt='int32'))
+    c.append(_case('gmean', cols=[[16777215, 16777215, 3, 16777216, 1]], sc=[2, 2, 2, 0, 0], twod=False, dts=DT_ALL, vdt='float32'))
+    c.append(_case('gmean', cols=[[1, 1], [1, 0]], sc=[7, 7], twod=True, dts=DT_ALL, vdt='bool'))
+    c.append(_case('gmean', cols=[[100, 20, 100, 7, 30, 100]], sc=[5, 2, 5, 9, 2, 5], twod=False, dts=DT_ALL, vdt='int16'))   # sums stay in range
     return c
 
 
@@ -214,6 +234,31 @@ def _random_dt_cases(rng, count, nmax):
     return out
 
 
+def _vdt_values(rng, vdt, n):
+    """n values of the dtype vdt, mostly at the ends of its range (so that a cluster of >= 2 spikes has a sum outside it)"""
+    lo, hi = VDT[vdt]
+    pool = sorted(set([lo, lo + 1, hi, hi - 1, hi // 2 + 1, 0, 1]))
+    return [rng.choice(pool) if rng.random() < .85 else rng.randint(lo, hi) for _ in range(n)]
+
+
+def _gmean_dtype_cases(rng, kmax):
+    """round-3 seed C07-m9: for every values dtype (int8 / uint8 / int16 / uint16 / int32 / float32 / bool) every cluster vector up
+    to length kmax - 1 over the gapped alphabet and a quarter of those of length kmax, values at the ends of the dtype's range,
+    one-dimensional and (shorter vectors) with two columns; every id dtype on the shorter vectors, one in rotation on the longest"""
+    out = []
+    k = 0
+    for vdt in ('int8', 'uint8', 'int16', 'uint16', 'int32', 'float32', 'bool'):
+        for v in _vectors(ALPHA, kmax, 1):
+            k += 1
+            if len(v) == kmax and k % 4:
+                continue
+            dts = DT_ALL if len(v) < kmax else [DT_ALL[(k // 4) % 4]]
+            out.append(_case('gmean', cols=[_vdt_values(rng, vdt, len(v))], sc=v, twod=k % 5 == 0, dts=dts, vdt=vdt))
+            if len(v) in (2, 3) and k % 3 == 0:
+                out.append(_case('gmean', cols=[_vdt_values(rng, vdt, len(v)) for _ in range(2)], sc=v, twod=True, dts=dts, vdt=vdt))
+    return out
+
+
 def _random_cases(rng, count, nmax, idmax):
     out = []
     for _ in range(count):
@@ -241,6 +286,12 @@ def _random_cases(rng, count, nmax, idmax):
         elif kind == 5:
             m = min(n, 600)
             cols = [[rng.randint(-1000, 1000) for _ in range(m)] for _ in range(rng.choice([1, 1, 2]))]
+            if rng.random() < .5:
+                # round 3: the values in a narrow integer / float32 / boolean dtype, at the ends of its range
+                vdt = rng.choice(sorted(VDT))
+                cols = [_vdt_values(rng, vdt, m) for _ in cols]
+                out.append(_case('gmean', cols=cols, sc=sc[:m], twod=len(cols) > 1 or rng.random() < .3, dts=dts, vdt=vdt))
+                continue
             out.append(_case('gmean', cols=cols, sc=sc[:m], twod=len(cols) > 1 or rng.random() < .3, dts=dts))
         elif kind == 6:
             nt = rng.randint(1, 12)
@@ -304,6 +355,7 @@ def generate(tier, rng):
     for v in _vectors(ALPHA, 3 if quick else 4, 1):
         cols = [[rng.randint(-50, 50) for _ in v] for _ in range(2)]
         cases.append(_case('gmean', cols=cols, sc=v, twod=True, dts=DT_ALL))
+    cases += _gmean_dtype_cases(rng, 4 if quick else 5)
     # ---- TemplateModel queries
     for v in _vectors(ALPHA, 4 if quick else 5):
         for c in REQ:
@@ -404,10 +456,19 @@ def _one(np, k, i, dt):
     if k == 'gmean':
         sc = _arr(np, i['sc'], dt)
         cols = i['cols']
+        vdt = i.get('vdt', 'int64')
+        lo, hi = VDT[vdt]
+        for col in cols:
+            for v in col:
+                if not (lo <= v <= hi):
+                    raise _Bad('value %r is not held exactly by %s' % (v, vdt))
+        vtype = np.bool_ if vdt == 'bool' else getattr(np, vdt)
         if i['twod']:
-            arr = np.array(cols, dtype=np.int64).T.reshape(len(cols[0]), len(cols))
+            arr = np.array(cols, dtype=np.int64).T.reshape(len(cols[0]), len(cols)).astype(vtype)
         else:
-            arr = np.array(cols[0], dtype=np.int64)
+            arr = np.array(cols[0], dtype=np.int64).astype(vtype)
+        if arr.dtype != np.dtype(vtype) or arr.astype(np.float64).tolist() != np.array(cols, dtype=np.float64).T.reshape(arr.shape).tolist():
+            raise _Bad('the values are not held exactly by %s' % vdt)
         out = np.asarray(A.grouped_mean(arr, sc))
         if out.dtype != np.float64:
             raise TypeError('grouped_mean returned dtype %s' % out.dtype)
@@ -567,6 +628,17 @@ def dist(case, obs):
         out.append('sic.req=%s' % _bucket(len(i['cl'])))
         out.append('sic.absent=%s' % bool(set(i['cl']) - set(i['sc'])))
         out.append('sic.unsorted=%s' % (list(i['cl']) != sorted(set(i['cl']))))
+    if k == 'gmean':
+        vdt = i.get('vdt', 'int64')
+        out.append('gmean.values_dtype=' + vdt)
+        lo, hi = VDT[vdt]
+        if vdt == 'float32':
+            hi, lo = 2 ** 24, -2 ** 24
+        sums = {}
+        for j, col in enumerate(i['cols']):
+            for c, v in zip(i['sc'], col):
+                sums[(j, c)] = sums.get((j, c), 0) + v
+        out.append('gmean.cluster_sum_outside_values_dtype=%s' % any(not (lo <= t <= hi) for t in sums.values()))
     if k == 'index_of':
         out.append('index_of.lookup_sorted=%s' % (list(i['lookup']) == sorted(i['lookup'])))
     return out
@@ -601,6 +673,8 @@ def shrink(case):
             for p, v in enumerate(col):
                 if v != 0:
                     yield _with(case, cols=[c if jj != j else col[:p] + [0] + col[p + 1:] for jj, c in enumerate(i['cols'])])
+        if i.get('vdt'):
+            yield {'kind': k, 'inp': {key: val for key, val in i.items() if key != 'vdt'}}
         return
     if k == 'flatten':
         d = i['d']
